@@ -478,6 +478,11 @@ func c10Late(r *vc.Run, n int) {
 			c.fold()
 		}
 		hold := []string{"undo-insert", "commit"}[i%2]
+		if i%5 == 4 {
+			// phase one is held at its undo-log INSERT until the rollback transaction has looked for the undo log (none)
+			// and is about to insert its marker; then phase one runs to its local commit before the marker INSERT goes on
+			hold = "undo-insert-until-rollback-marker"
+		}
 		c.Feat["hold"] = hold
 		heldDeliveries := 1
 		if hold == "undo-insert" {
@@ -487,15 +492,24 @@ func c10Late(r *vc.Run, n int) {
 		env.install(c)
 		reached := make(chan struct{})
 		release := make(chan struct{})
+		var releaseOnce sync.Once
+		doRelease := func() { releaseOnce.Do(func() { close(release) }) }
+		done := make(chan struct{})
 		var mu sync.Mutex
-		fired, sawUndo := false, false
+		fired, sawUndo, marker := false, false, false
 		env.db.E.Inject = func(j *mm.JournalEntry) *mm.Action {
-			if j.Class != "proxied" {
+			// phase one runs on the application's proxied connection; the rollback transaction runs on a connection of
+			// the resource's own pool (class "app")
+			if j.Class != "proxied" && !(hold == "undo-insert-until-rollback-marker" && j.Class == "app") {
 				return nil
 			}
 			mu.Lock()
 			isUndo := j.Kind == "INSERT" && strings.Contains(strings.ToLower(j.SQL), "into undo_log")
-			match := !fired && ((hold == "undo-insert" && isUndo) || (hold == "commit" && j.Kind == "COMMIT" && sawUndo))
+			match := !fired && j.Class == "proxied" && ((strings.HasPrefix(hold, "undo-insert") && isUndo) || (hold == "commit" && j.Kind == "COMMIT" && sawUndo))
+			second := fired && !match && isUndo && !marker && j.Class == "app" && hold == "undo-insert-until-rollback-marker"
+			if second {
+				marker = true
+			}
 			if isUndo {
 				sawUndo = true
 			}
@@ -503,6 +517,15 @@ func c10Late(r *vc.Run, n int) {
 				fired = true
 			}
 			mu.Unlock()
+			if second {
+				// the rollback transaction's marker INSERT: let phase one finish its local commit first
+				doRelease()
+				select {
+				case <-done:
+				case <-time.After(30 * time.Second):
+				}
+				return nil
+			}
 			if match {
 				close(reached)
 				select {
@@ -516,7 +539,6 @@ func c10Late(r *vc.Run, n int) {
 		env.logMark()
 		o.Pre = env.snap(c)
 		o.StartSeq = env.w.Clock.Now()
-		done := make(chan struct{})
 		go func() {
 			o.CallErr = env.ch.Call("gtx", &gtxScope{Case: c.Name, Name: c.Name, TimeoutMs: 60000, Outcome: "error", Label: "gtx", Steps: c.steps("at")}, &o.Res)
 			close(done)
@@ -539,13 +561,13 @@ func c10Late(r *vc.Run, n int) {
 					}
 				}
 			}
-			close(release)
+			doRelease()
 			<-done
 		case <-done:
 			// phase one never wrote an undo log (no row matched): nothing to hold
-			close(release)
+			doRelease()
 		case <-time.After(60 * time.Second):
-			close(release)
+			doRelease()
 			env.ch.Quit()
 			<-done
 		}
